@@ -1,7 +1,10 @@
 package filter
 
+// TrieNode is keyed by byte: redis keys are binary strings, so prefixes are
+// compared byte by byte (ranging over runes would collapse every byte that is
+// not valid UTF-8 into U+FFFD).
 type TrieNode struct {
-	children map[rune]*TrieNode
+	children map[byte]*TrieNode
 	isEnd    bool
 }
 
@@ -13,7 +16,7 @@ type Trie struct {
 func NewTrie() *Trie {
 	return &Trie{
 		root: &TrieNode{
-			children: make(map[rune]*TrieNode),
+			children: make(map[byte]*TrieNode),
 			isEnd:    false,
 		},
 	}
@@ -21,10 +24,11 @@ func NewTrie() *Trie {
 
 func (t *Trie) Insert(word string) {
 	node := t.root
-	for _, ch := range word {
+	for i := 0; i < len(word); i++ {
+		ch := word[i]
 		if node.children[ch] == nil {
 			node.children[ch] = &TrieNode{
-				children: make(map[rune]*TrieNode),
+				children: make(map[byte]*TrieNode),
 				isEnd:    false,
 			}
 		}
@@ -35,8 +39,8 @@ func (t *Trie) Insert(word string) {
 
 func (t *Trie) IsPrefixMatch(word string) bool {
 	node := t.root
-	for _, ch := range word {
-		node = node.children[ch]
+	for i := 0; i < len(word); i++ {
+		node = node.children[word[i]]
 		if node == nil {
 			return false
 		}
@@ -49,8 +53,8 @@ func (t *Trie) IsPrefixMatch(word string) bool {
 
 func (t *Trie) Search(word string) bool {
 	node := t.root
-	for _, ch := range word {
-		node = node.children[ch]
+	for i := 0; i < len(word); i++ {
+		node = node.children[word[i]]
 		if node == nil {
 			return false
 		}
